@@ -2,16 +2,32 @@
 import vlib, extract, genobl
 
 
-def prove(ctx, modules, with_obligations=True):
+def prove(ctx, modules, with_obligations=True, with_wrappers=False):
     tabs = extract.tables()
     extract.write_lean(tabs)
     gen = []
+    modules = list(modules)
+    if with_wrappers:
+        import wrapgen
+        wnames, winfo, _ = wrapgen.write(tabs)
+        onames, omissing = wrapgen.write_obligations(tabs, winfo)
+        for n, why in omissing:
+            ctx.oblige('IRGen.WrapObl.c01w_%s' % n, False, 'protocol listed in tools/fragment.json (wrapC01) has no traced wrapper any more: ' + why)
+        ctx.extra['wrappers_traced'] = dict(encode=sum(1 for v in winfo.values() if v['encode'] == 'traced'),
+                                            decode=sum(1 for v in winfo.values() if v['decode'] in ('traced', 'not overridden')),
+                                            c01_obligations=len(onames))
+        ctx.extra['wrappers_opaque'] = {n: dict(encode=v['encode'], decode=v['decode']) for n, v in sorted(winfo.items())
+                                        if v['encode'] != 'traced' or v['decode'] not in ('traced', 'not overridden')}
+        ctx.winfo = winfo
+        modules.append('IRModel.Props.Wrapper')
     if with_obligations:
         names, missing = genobl.write(tabs)
         gen = ['IRGen.Obligations']
         for m in missing:
             ctx.oblige('IRGen.Obl.wf_%s' % m, False, 'protocol listed in tools/fragment.json is no longer modelled (table shape changed)')
         ctx.extra['classA_protocols'] = len(names) // 3
+    if with_wrappers:
+        gen = gen + ['IRGen.WrapObl']
     ok = vlib.prove(ctx, modules, gen)
     return tabs, ok
 
@@ -20,7 +36,9 @@ def failed_protocols(ctx):
     """protocol names whose generated obligation failed on this run"""
     out = set()
     for name, ok, detail in ctx.obligations:
-        if not ok and ('IRGen.Obl.wf_' in name or 'IRGen.Obl.wftol_' in name):
+        if not ok and 'IRGen.WrapObl.c01w_' in name:
+            out.add(name.split('c01w_', 1)[1])
+        elif not ok and ('IRGen.Obl.wf_' in name or 'IRGen.Obl.wftol_' in name):
             tail = name.split('_', 1)[1] if False else name.split('.')[-1].split('_', 1)[1]
             out.add(tail.rsplit('_', 1)[0] if tail.rsplit('_', 1)[-1].isdigit() else tail)
     return out
